@@ -64,8 +64,11 @@ type vfNode struct {
 	prefCalls int
 }
 
-func vfClusterNode(n int, wc *vfWireCodec) *vfNode {
+func vfClusterNode(n int, wc *vfWireCodec) *vfNode { return vfClusterNodeCfg(n, wc, 0) }
+
+func vfClusterNodeCfg(n int, wc *vfWireCodec, left time.Duration) *vfNode {
 	var cfg KVConfig
+	cfg.LeftIngestersTimeout = left
 	cfg.Codecs = append(cfg.Codecs, wc)
 	cfg.ProcessedMessagesQueueSize = 8
 	cfg.WatchPrefixBufferSize = 8
@@ -458,8 +461,16 @@ func HarnessC06_MixedState() {
 	good1 := KeyValuePair{Key: "k1", Value: enc(&vfLWW{m: map[string]vfEntry{"a": {ts: ts1}}}), Codec: wc.CodecID()}
 	good2 := KeyValuePair{Key: "k2", Value: enc(&vfLWW{m: map[string]vfEntry{"b": {ts: ts2}}}), Codec: wc.CodecID()}
 	bad := KeyValuePair{Key: "other", Value: []byte("opaque"), Codec: "codec-of-another-application"}
-	if vfChoice("bad_kind", 2) == 1 {
+	switch vfChoice("bad_kind", 3) {
+	case 1:
 		bad = KeyValuePair{Key: "k3", Value: []byte("not a handle"), Codec: wc.CodecID()} // known codec, undecodable value
+	case 2:
+		// a well-formed deletion marker of a key this node never had (the sender
+		// deleted it and has not yet purged it): nothing to delete here, and the
+		// pairs that follow it in the blob are live
+		tsd := vfI64("ts_deleted")
+		vfAssume(vfAnd(tsd >= 1, tsd <= 1000))
+		bad = KeyValuePair{Key: "k3", Value: enc(&vfLWW{m: map[string]vfEntry{"c": {ts: tsd}}}), Codec: wc.CodecID(), Deleted: true, UpdateTimeMillis: (vfEpoch + 50) * 1000}
 	}
 	pos := vfChoice("bad_position", 3)
 	var pairs []KeyValuePair
@@ -489,6 +500,13 @@ func HarnessC06_MixedState() {
 		vfAssert(vfAnd(a.m["a"].ts == ts1, b.m["b"].ts == ts2), "C06 the usable pairs of a full-state exchange are merged")
 	}
 	vfAssert(vfRaw(nd.kv, "other") == nil && vfRaw(nd.kv, "k3") == nil, "C06 an unusable pair changes no stored state")
+	nd.kv.storeMu.Lock()
+	d1, d2 := nd.kv.store["k1"].Deleted, nd.kv.store["k2"].Deleted
+	nd.kv.storeMu.Unlock()
+	vfAssert(!d1 && !d2, "C06 live pairs of a full-state exchange are stored as live whatever precedes them in the blob")
+	g1, e1 := nd.kv.Get("k1", wc)
+	g2, e2 := nd.kv.Get("k2", wc)
+	vfAssert(e1 == nil && e2 == nil && g1 != nil && g2 != nil, "C06 the usable pairs of a full-state exchange are readable")
 	mu.Lock()
 	n1, n2 := seenKeys["k1"], seenKeys["k2"]
 	mu.Unlock()
